@@ -96,7 +96,7 @@ var pureIntrinsics = map[string]bool{
 	"prim:tokIntValue": true, "prim:tokElems": true, "prim:noControlBytes": true, "prim:thorough": true, "prim:inEngine": true,
 	"prim:lockHeld": true, "prim:lockHeldAny": true, "prim:ctxCancelled": true,
 	"bytes.TrimSpace": true, "strings.TrimSpace": true, "strings.HasPrefix": true, "strings.TrimRight": true, "strings.TrimLeft": true,
-	"strings.Trim": true, "strings.SplitN": true, "strings.ToLower": true, "strings.IndexByte": true, "bytes.IndexByte": true,
+	"strings.Trim": true, "strings.SplitN": true, "strings.Cut": true, "strings.ToLower": true, "strings.IndexByte": true, "bytes.IndexByte": true,
 	"internal/bytealg.IndexByteString": true, "internal/bytealg.IndexByte": true, "internal/bytealg.CountString": true,
 	"internal/bytealg.Count": true, "strings.LastIndex": true, "errors.Is": true,
 }
